@@ -414,6 +414,13 @@ void World::renderCg(Cg& c) {
       s += std::to_string(p) + "\n";
     files["cgroup.procs"] = s;
   }
+  {
+    int pop = isPopulated(c) ? 1 : 0;
+    if (pop != c.lastPop) {
+      c.lastPop = pop;
+      c.popSince = R.log.size();
+    }
+  }
   files["cgroup.events"] = std::string("populated ") +
       (isPopulated(c) ? "1" : "0") + "\nfrozen " + (c.frozen ? "1" : "0") +
       "\n";
